@@ -6,6 +6,7 @@ from speclib import *
 from spec.real import *
 from spec.floats import *
 from spec.c02 import *
+from fpy2.number.context.context import Context
 
 
 # ---------------------------------------------------------------------------
@@ -107,6 +108,55 @@ def floor_mag_rto(D, S, E, neg):
     """
     c1 = rto_c(D, S)
     return fdiv(c1, pow2(-E)) + b2i(neg and fmod(c1, pow2(-E)) != 0)
+
+
+# ---------------------------------------------------------------------------
+# an arbitrary rounding context (other than the REAL singleton) and the abstract result of its `round`
+
+class AbsContext(Context):
+    """stand-in for an arbitrary concrete rounding context: `round` is the trusted interface contract AbsContext_round"""
+
+
+def rnd_b(name, ctx, x):
+    """boolean attribute `name` of ctx.round(x): an uninterpreted function of the context and the operand's fields"""
+    if cls_name(x) == 'Float':
+        return ghost('rnd_f_' + name, obj_id(ctx), b2i(x._isnan), b2i(x._isinf), b2i(x._real._s), x._real._exp, x._real._c,
+                     x._real._flags._flags) != 0
+    return ghost('rnd_q_' + name, obj_id(ctx), x) != 0
+
+
+def rnd_i(name, ctx, x):
+    """integer attribute `name` of ctx.round(x)"""
+    if cls_name(x) == 'Float':
+        return ghost('rnd_f_' + name, obj_id(ctx), b2i(x._isnan), b2i(x._isinf), b2i(x._real._s), x._real._exp, x._real._c,
+                     x._real._flags._flags)
+    return ghost('rnd_q_' + name, obj_id(ctx), x)
+
+
+def rounded_as(ctx, x, r):
+    """r has the class, sign and digits of ctx.round(x)"""
+    return (r._isnan == rnd_b('nan', ctx, x) and r._isinf == rnd_b('inf', ctx, x) and r._real._s == rnd_b('s', ctx, x)
+            and r._real._exp == rnd_i('exp', ctx, x) and r._real._c == rnd_i('c', ctx, x))
+
+
+def op_is_nan(a):
+    return cls_name(a) == 'Float' and a._isnan
+
+
+def op_is_nar(a):
+    return cls_name(a) == 'Float' and (a._isnan or a._isinf)
+
+
+def any_nan(args):
+    n = len(args)
+    return ((op_is_nan(args[0]) if n > 0 else False) or (op_is_nan(args[1]) if n > 1 else False)
+            or (op_is_nan(args[2]) if n > 2 else False))
+
+
+def any_nar(args):
+    n = len(args)
+    return ((op_is_nar(args[0]) if n > 0 else False) or (op_is_nar(args[1]) if n > 1 else False)
+            or (op_is_nar(args[2]) if n > 2 else False))
 
 
 # ---------------------------------------------------------------------------
